@@ -518,6 +518,13 @@ fn main() {
                 v.push((l, c));
                 for f in follow { v.push((f, "FindByNostr")); }
             }
+            // epilogue: read everything listable back, so that a difference left behind by any earlier operation is observed
+            // (by the other backend and by the model) even if the random tail of the sequence never looks at it
+            v.push(("ST AllGroups".into(), "epilogue")); v.push(("ST PendingWelcomes 1000 0".into(), "epilogue"));
+            for gi in 0..4u64 {
+                for l in [format!("ST ListSnaps {gi}"), format!("ST Messages {gi} 10000 0 0"), format!("ST Messages {gi} 10000 0 1"), format!("ST Relays {gi}"), format!("ST Admins {gi}"),
+                          format!("ST FindInvalidatedMsgs {gi}"), format!("ST FindInvalidatedPmsgs {gi}"), format!("ST FindFailedRetry {gi}")] { v.push((l, "epilogue")); }
+            }
         }
         v
     };
@@ -538,6 +545,14 @@ fn main() {
         let rs = run_with_oracles(&st.sql, &m, "sqlite", line, &mut copies_sql, &mut fails);
         let seq = || lines[seq_start..=i].iter().map(|(l, _)| l.clone()).collect::<Vec<_>>().join(" || ");
         if rm != rs { fails.push(("C10", format!("backends disagree on `{line}`: memory {rm} / sqlite {rs}"))); }
+        if matches!(line.split(' ').nth(1), Some("Snapshot" | "Rollback" | "Release" | "Prune")) {
+            // the snapshot family moves whole groups of rows at once: compare everything observable on the two backends right
+            // after it, not only what the rest of the sequence happens to read
+            let (om, os) = (guarded_map(|| observe(&st.mem, &m)), guarded_map(|| observe(&st.sql, &m)));
+            if let Some((k, v)) = om.iter().find(|(k, v)| os.get(*k) != Some(*v)) {
+                fails.push(("C10", format!("after `{line}` the backends differ on {k}: memory {v} / sqlite {}", os.get(k).cloned().unwrap_or("?".into()))));
+            }
+        }
         for (b, r) in [("memory", &rm), ("sqlite", &rs)] { if r == "PANIC" { fails.push(("C06", format!("storage call panicked on backend {b}: {line}"))); } }
         for (p, d) in fails { run.oracle_fail(p, "", d, seq()); }
         let res = if backend == "mem" { rm } else { rs };
